@@ -117,6 +117,9 @@ func (o *Obligation) Query(models bool) string {
 	}
 	sb.WriteString("(set-logic ALL)\n")
 	for _, l := range (*o.script)[:o.prefix] {
+		if o.ExpectSat && strings.HasPrefix(l, "(assert") && (strings.Contains(l, "(forall ") || strings.Contains(l, "(exists ")) {
+			continue // canaries: quantified facts are dropped so that a solver can answer sat
+		}
 		sb.WriteString(l)
 		sb.WriteByte('\n')
 	}
@@ -184,6 +187,16 @@ func (g *vcgen) define(base string, e Expr, st vcState) Expr {
 	v := g.fresh(base, e.Sort())
 	g.emit(fmt.Sprintf("(define-fun %s () %s %s)", v.Name, v.S, PrintIn(e, st)))
 	return v
+}
+
+// rangeFact asserts the type invariant of a freshly declared incarnation.
+func (g *vcgen) rangeFact(c *Cell, nv *Var) {
+	if g.p.RangeFact == nil {
+		return
+	}
+	if rf := g.p.RangeFact(c); rf != nil {
+		g.fact(True, rf, vcState{c.Name: nv})
+	}
 }
 
 func (g *vcgen) fact(guard Expr, e Expr, st vcState) {
@@ -386,12 +399,18 @@ func GenVCs(p *Proc, prelude []string) (obls []*Obligation, err error) {
 						same = false
 					}
 				}
-				if same && !missing {
+				if missing {
+					// not definitely assigned on every path: out of scope after the join
+					// (SSA registers and block-local variables of one branch)
+					continue
+				}
+				if same {
 					st[k] = first
 					continue
 				}
 				nv := g.fresh(k, first.Sort())
 				g.declare(nv)
+				g.rangeFact(&Cell{k, first.Sort()}, nv)
 				for _, in := range ins {
 					if v, ok := in.state[k]; ok {
 						g.fact(in.guard, Eq(nv, v), nil)
@@ -421,11 +440,7 @@ func GenVCs(p *Proc, prelude []string) (obls []*Obligation, err error) {
 				nv := g.fresh(k, c.S)
 				g.declare(nv)
 				st[k] = nv
-				if p.RangeFact != nil {
-					if rf := p.RangeFact(c); rf != nil {
-						g.fact(reach, rf, st)
-					}
-				}
+				g.rangeFact(c, nv)
 			}
 			for _, inv := range ls.Invs {
 				g.fact(reach, inv.E, st)
@@ -443,6 +458,7 @@ func GenVCs(p *Proc, prelude []string) (obls []*Obligation, err error) {
 				nv := g.fresh(c.Cell.Name, c.Cell.S)
 				g.declare(nv)
 				st[c.Cell.Name] = nv
+				g.rangeFact(c.Cell, nv)
 			case CAssume:
 				g.fact(reach, c.E, st)
 			case CAssert:
